@@ -309,6 +309,16 @@ impl Gen {
                 let old = m.nodes.get(k).unwrap();
                 let mut meta = old.meta;
                 meta.mtime = self.mtime(cfg);
+                // the minimal change the property still covers: same size, same second,
+                // only the nanoseconds move
+                let minimal = self.r.chance(1, 4);
+                let new_size = if minimal { size } else { new_size };
+                if minimal {
+                    meta.mtime = (old.meta.mtime.0, (old.meta.mtime.1 + 1 + self.r.below(5) as u32) % 1_000_000_000);
+                    if meta.mtime.1 < old.meta.mtime.1 {
+                        meta.mtime.0 += 1;
+                    }
+                }
                 Some(EditOp::Put {
                     path: k.clone(),
                     node: TNode {
